@@ -6,6 +6,14 @@ ROOT = os.path.dirname(os.path.dirname(os.path.abspath(__file__)))
 
 # property id -> (technique, level text, level note, design ref)
 CHECKS = {
+ "C04": ("static structural clauses only: ADAPTER (delegating variants are pure adapters), ALIAS (aliases forward every parameter once), PIPE (typed PipeN/PipeOpN apply operators in order), NO-POST-DELIVERY-MUTATION (an emitted slice/map is re-bound before being written again)",
+         "Narrow claim. What each operator computes on every input is NOT decidable statically and is not claimed. Decided are the clauses of the property that are visible in the code's shape: 67 delegating variants are observationally identical to their base form because their adapter literal calls the user function once with its own parameters and returns the right context; 24 aliases forward all parameters; 50 typed pipe functions apply operators in order (composition); no retained container is modified after delivery.",
+         "Trusted: go/types. Base forms' values, boundaries and the reflective Pipe are out of reach.",
+         "DESIGN.md section 4, C04"),
+ "C17": ("static typestate/table checks: close-site discipline of operator-created channels (CLOSE-ONCE), sends only in recovering slots (SEND-RECOVERED), queue discipline of ToChannel/detachOn (BOUNDED-QUEUE), sink shape of ToSlice/ToMap (SINK-ON-COMPLETE), FromChannel's receive loop (FROM-CHANNEL), writer/reader kind tables of notifications (MATERIALIZE-TABLE), Collect (COLLECT-WAITS)",
+         "Static discipline check of the bridges: channels are closed exactly once (single teardown-only site or sync.Once), never sent to outside a recovering slot, terminal notifications are queued before the close; ToSlice/ToMap emit once at completion the container their next slot fills; FromChannel completes on close and stops on teardown; the notification constructors, the materializing writers and the dispatching readers agree kind by kind (so Materialize∘Dematerialize preserves kinds). Contents of containers and consumer behaviour are not decided.",
+         "Trusted: channel semantics; C03 (teardown once); C07 (slots recover).",
+         "DESIGN.md section 4, C17"),
  "C06": ("static CFG ordering and who-may-lock analysis of subscriber.go / subscription.go / observable.go: compare-and-swap dominates the finalizer run (UNSUB-FLIPS-FIRST), query methods never acquire the producer lock (call-graph over same-type methods), terminal-before-close, Wait's signalling channel discipline (WAIT-SIGNAL), Collect's wait-before-return and returned variables (COLLECT-WAITS)",
          "Static check of the structural premises behind 'Unsubscribe cuts delivery' and 'Wait/Collect tell the truth': the status is closed before finalizers run (so, with the Next gate, a notification started afterwards is refused), query methods and Unsubscribe are callable from inside callbacks, terminals are delivered before the subscriber closes, Wait blocks only on a buffered channel signalled solely by a teardown it registers, Collect waits before every return and returns what its observer gathered, Unsubscribe is idempotent. Decided exhaustively for the three core files; the real-time claim is the argued consequence.",
          "Trusted: sync/atomic, sync.Mutex, channel semantics.",
